@@ -448,35 +448,27 @@ def _cond_var(f):
 def _condition(run, P, f):
     cv = _cond_var(f)
     stack = "self._conditional_expression_stack"
-    cond = None
-    for s_ in f.node.body:
-        if isinstance(s_, ast.If) and stack in ast.unparse(s_.test):
-            cond = s_
-    if cond is None:
+    from .util import path_conditions
+    assigns = [s_ for s_ in ast.walk(f.node) if isinstance(s_, ast.Assign)
+               and any(dotted(t_) == cv for t_ in s_.targets)]
+    if not assigns:
         raise AnalysisError("_add_statement: guard construction not found")
-    t0 = ast.unparse(cond.test)
-    from .util import core
-    sets_cv = lambda s_: isinstance(s_, ast.Assign) and any(dotted(t_) == cv for t_ in s_.targets)
-    cb = core(cond.body, sets_cv)
-    ok = t0 == f"not {stack}" and len(cb) == 1 \
-        and ast.unparse(cb[0]) == f"{cv} = True"
-    run.ob("C02.cond", f, cond, ok, construct="empty stack -> condition = True",
-           why="unguarded statements must run unconditionally")
-    eo = core(cond.orelse, lambda s_: isinstance(s_, ast.If))
-    e1 = eo[0] if len(eo) == 1 and isinstance(eo[0], ast.If) else None
-    ok = e1 is not None and ast.unparse(e1.test) == f"len({stack}) == 1" \
-        and [ast.unparse(s_) for s_ in core(e1.body, sets_cv)] == [f"{cv} = {stack}[0]"]
-    run.ob("C02.cond", f, e1 if e1 is not None else cond, ok,
-           construct="one entry -> condition = stack[0]",
-           why="single guard")
-    ok = False
-    if e1 is not None and e1.orelse:
-        ok = [ast.unparse(s_) for s_ in core(e1.orelse, sets_cv)
-              if not isinstance(s_, (ast.Import, ast.ImportFrom))] == \
-            [f"{cv} = LogicalAnd(tuple({stack}))"]
-    run.ob("C02.cond", f, e1.orelse[-1] if e1 is not None and e1.orelse else cond, ok,
-           construct="several entries -> LogicalAnd(tuple(stack))",
-           why="a nested block must be guarded by all enclosing guards, not only the innermost")
+    by_value = {}
+    for a_ in assigns:
+        by_value.setdefault(ast.unparse(a_.value), []).append(path_conditions(f.node, a_))
+    want = [
+        ("True", {(stack, False)}, "empty stack -> condition = True",
+         "unguarded statements must run unconditionally"),
+        (f"{stack}[0]", {(stack, True), (f"len({stack}) == 1", True)},
+         "one entry -> condition = stack[0]", "single guard"),
+        (f"LogicalAnd(tuple({stack}))", {(stack, True), (f"len({stack}) == 1", False)},
+         "several entries -> LogicalAnd(tuple(stack))",
+         "a nested block must be guarded by all enclosing guards, not only the innermost"),
+    ]
+    for value, conds, construct, why in want:
+        got = by_value.get(value, [])
+        ok = len(got) == 1 and got[0] == conds and len(assigns) == 3
+        run.ob("C02.cond", f, assigns[0], ok, construct=construct, why=why)
 
 
 def _condition_names(f):
